@@ -183,7 +183,6 @@ func genRandomChain(t *rapid.T) chainPlan {
 	for i, k := range kinds {
 		pos[k] = i
 	}
-	_, hasFlatten := pos["flatten"]
 	_, hasReformat := pos["reformat"]
 	plan := chainPlan{styles: allStyles}
 	var src string
@@ -225,7 +224,6 @@ func genRandomChain(t *rapid.T) chainPlan {
 		}
 		ms = append(ms, sp)
 	}
-	_ = hasFlatten
 	plan.srcTag = src
 	if newTag == "json" || newTag == "yaml" || newTag == "toml" {
 		plan.formatTag = newTag
